@@ -14,13 +14,14 @@ CONSTANTS
   MaxSuite = 2
   MaxDepth = 3
   MaxTop = 2
-  ExtraT = 2
+  ExtraT = 1
   ExtraC = 3
-  ExtraM = 2
+  ExtraM = 1
   Coarse = FALSE
 SPECIFICATION Spec
 INVARIANT TypeOK
 INVARIANT NeverStale
 INVARIANT QueryTotal
 INVARIANT CleanMeansCurrent
+INVARIANT SuiteCleanMeansCurrent
 CONSTRAINT Bound
